@@ -741,4 +741,183 @@ theorem enterLoop_spec (sig : List Ty) : ∀ (st : ALState) (i0 so : Nat) (is : 
           simp only [locVal]
           rw [e1, e2 5 (by decide) (by simp [vreg]; omega)]
 
+/-! ### gen_call: the register arguments -/
+
+/-- one `moveArg`: the argument register receives the virtual register's value; only `rax` and
+    that argument register are written -/
+theorem moveArg_spec (i : Nat) (t : Ty) (l : Reg) (hl : l.parent ≠ 0) (s : MState) :
+    (run (moveArg i t l) s).reg l.parent = s.reg (vreg i) ∧
+    (∀ r, r ≠ 0 → r ≠ l.parent → (run (moveArg i t l) s).reg r = s.reg r) ∧
+    (run (moveArg i t l) s).mem = s.mem := by
+  have hv : vreg i ≠ 0 := by simp [vreg]
+  unfold moveArg
+  split
+  · rename_i n _ _
+    have hn : n ≠ 0 := by simpa [Reg.parent] using hl
+    refine ⟨by simp [step, upd, Reg.parent], ?_, by simp [step]⟩
+    intro r h0 hr; simp [Reg.parent] at hr; simp [step, upd, h0, hr]
+  · rename_i n _ _
+    have hn : n ≠ 0 := by simpa [Reg.parent] using hl
+    refine ⟨by simp [step, upd, Reg.parent], ?_, by simp [step]⟩
+    intro r h0 hr; simp [Reg.parent] at hr; simp [step, upd, h0, hr]
+  · refine ⟨by simp [step], ?_, by simp [step]⟩
+    intro r _ hr; simp [step, upd_other _ _ _ _ hr]
+
+/-- a list of register arguments with pairwise different argument registers: every one ends up
+    holding its value -/
+theorem moves_spec (L : List (Nat × Ty × Reg))
+    (H1 : ∀ x ∈ L, x.2.2.parent ∈ argRegIds)
+    (H2 : L.Pairwise (fun x y => x.2.2.parent ≠ y.2.2.parent)) : ∀ s : MState,
+    ∀ x ∈ L, (run (L.flatMap (fun (i, t, l) => moveArg i t l)) s).reg x.2.2.parent = s.reg (vreg x.1) := by
+  induction L with
+  | nil => intro s x hx; simp at hx
+  | cons x0 rest ih =>
+    intro s x hx
+    obtain ⟨i0, t0, l0⟩ := x0
+    have hl0 : l0.parent ∈ argRegIds := H1 (i0, t0, l0) (by simp)
+    have hl00 : l0.parent ≠ 0 := by intro h; rw [h] at hl0; simp [argRegIds] at hl0
+    have hl0lt : l0.parent < 100 := by simp [argRegIds] at hl0; omega
+    obtain ⟨a1, a2, a3⟩ := moveArg_spec i0 t0 l0 hl00 s
+    rw [List.pairwise_cons] at H2
+    simp only [List.flatMap_cons, run_append]
+    simp only [List.mem_cons] at hx
+    rcases hx with hx | hx
+    · subst hx
+      -- the remaining moves do not write l0.parent
+      have := movs_preserve (fun d => d = 0 ∨ ∃ y ∈ rest, d = y.2.2.parent)
+        (rest.flatMap (fun (i, t, l) => moveArg i t l)) (by
+          intro z hz
+          simp only [List.mem_flatMap] at hz
+          obtain ⟨⟨i, t, l⟩, hmem, hz⟩ := hz
+          obtain ⟨d, r, rfl, hd⟩ := moveArg_dests i t l z hz
+          exact ⟨d, r, rfl, hd.elim Or.inl (fun h => Or.inr ⟨(i, t, l), hmem, h⟩)⟩) (run (moveArg i0 t0 l0) s)
+      rw [this.2 l0.parent (by
+        rintro (h | ⟨y, hy, h⟩)
+        · exact hl00 h
+        · exact H2.1 y hy h)]
+      exact a1
+    · rw [ih (fun y hy => H1 y (by simp [hy])) H2.2 (run (moveArg i0 t0 l0) s) x hx]
+      exact a2 _ (by simp [vreg]) (by simp [vreg]; omega)
+
+/-- the registers still to be handed out all have different hardware identities -/
+def distinctRegs (st : ALState) : Prop :=
+  ((st.ints ++ st.floats).map (fun p => p.1.parent)).Nodup ∧ ∀ p ∈ st.ints ++ st.floats, p.2.parent = p.1.parent
+
+theorem init_distinct : distinctRegs initState := by
+  constructor
+  · decide
+  · intro p hp
+    simp [initState, intRegs, floatRegs] at hp
+    rcases hp with rfl | rfl | rfl | rfl | rfl | rfl | rfl | rfl | rfl | rfl | rfl | rfl | rfl | rfl <;> rfl
+
+theorem argStep_cases (st : ALState) (t : Ty) :
+    (∃ p rest, st.ints = p :: rest ∧ argStep st t = ({ st with ints := rest }, .reg (if is32 t then p.2 else p.1))) ∨
+    (∃ p rest, st.floats = p :: rest ∧ argStep st t = ({ st with floats := rest }, .reg (if t = .f32 then p.1 else p.2))) ∨
+    (argStep st t = ({ st with offset := st.offset + 8 }, .stack st.offset 8)) := by
+  unfold argStep
+  split
+  · split
+    · rename_i p rest hp; exact Or.inl ⟨p, rest, hp, rfl⟩
+    · exact Or.inr (Or.inr rfl)
+  · split
+    · rename_i p rest hp; exact Or.inr (Or.inl ⟨p, rest, hp, rfl⟩)
+    · exact Or.inr (Or.inr rfl)
+
+theorem argStep_distinct (st : ALState) (t : Ty) (h : distinctRegs st) :
+    distinctRegs (argStep st t).1 ∧
+    (∀ p ∈ (argStep st t).1.ints ++ (argStep st t).1.floats, p ∈ st.ints ++ st.floats) ∧
+    (∀ r, (argStep st t).2 = .reg r →
+      (∃ p ∈ st.ints ++ st.floats, r.parent = p.1.parent) ∧
+      ∀ p ∈ (argStep st t).1.ints ++ (argStep st t).1.floats, p.1.parent ≠ r.parent) := by
+  obtain ⟨hn, he⟩ := h
+  rcases argStep_cases st t with ⟨p, rest, hp, e⟩ | ⟨p, rest, hp, e⟩ | e
+  · rw [e]; simp only
+    rw [hp] at hn he
+    simp only [List.cons_append, List.map_cons, List.nodup_cons] at hn
+    have hsub : ∀ q ∈ rest ++ st.floats, q ∈ p :: rest ++ st.floats := fun q hq => by
+      simp only [List.cons_append, List.mem_cons]; exact Or.inr hq
+    refine ⟨⟨hn.2, fun q hq => he q (hsub q hq)⟩, fun q hq => by rw [hp]; exact hsub q hq, ?_⟩
+    intro r hr
+    simp only [Loc.reg.injEq] at hr
+    have hrp : r.parent = p.1.parent := by
+      rw [← hr]; split
+      · exact he p (by simp)
+      · rfl
+    refine ⟨⟨p, by rw [hp]; simp, hrp⟩, fun q hq hqp => hn.1 ?_⟩
+    rw [← hrp, ← hqp]
+    exact List.mem_map.2 ⟨q, hq, rfl⟩
+  · rw [e]; simp only
+    rw [hp] at hn he
+    have hsub : ∀ q ∈ st.ints ++ rest, q ∈ st.ints ++ p :: rest := fun q hq => by
+      simp only [List.mem_append, List.mem_cons] at hq ⊢
+      rcases hq with hq | hq
+      · exact Or.inl hq
+      · exact Or.inr (Or.inr hq)
+    have hn' : ((st.ints ++ rest).map (fun p => p.1.parent)).Nodup ∧ p.1.parent ∉ (st.ints ++ rest).map (fun p => p.1.parent) := by
+      simp only [List.map_append, List.map_cons] at hn ⊢
+      obtain ⟨h1, h2, h3⟩ := List.nodup_append.1 hn
+      rw [List.nodup_cons] at h2
+      refine ⟨List.nodup_append.2 ⟨h1, h2.2, fun a ha b hb => h3 a ha b (by simp [hb])⟩, ?_⟩
+      simp only [List.mem_append, not_or]
+      exact ⟨fun hm => h3 _ hm _ (by simp) rfl, h2.1⟩
+    refine ⟨⟨hn'.1, fun q hq => he q (hsub q hq)⟩, fun q hq => by rw [hp]; exact hsub q hq, ?_⟩
+    intro r hr
+    simp only [Loc.reg.injEq] at hr
+    have hrp : r.parent = p.1.parent := by
+      rw [← hr]; split
+      · rfl
+      · exact he p (by simp)
+    refine ⟨⟨p, by rw [hp]; simp, hrp⟩, fun q hq hqp => hn'.2 ?_⟩
+    rw [← hrp, ← hqp]
+    exact List.mem_map.2 ⟨q, hq, rfl⟩
+  · rw [e]; simp only
+    exact ⟨⟨hn, he⟩, fun q hq => hq, fun r hr => by simp at hr⟩
+
+/-- `reg_args` of a location list produced by the loop: destinations come from the remaining
+    registers and are pairwise different; every register location is a member -/
+theorem regArgs_spec (sig : List Ty) : ∀ (st : ALState) (i : Nat), distinctRegs st →
+    (∀ x ∈ regArgsFrom i sig (argLoop st sig), ∃ p ∈ st.ints ++ st.floats, x.2.2.parent = p.1.parent) ∧
+    (regArgsFrom i sig (argLoop st sig)).Pairwise (fun x y => x.2.2.parent ≠ y.2.2.parent) ∧
+    (∀ j r, (argLoop st sig)[j]? = some (.reg r) → ∃ t, (i + j, t, r) ∈ regArgsFrom i sig (argLoop st sig)) := by
+  induction sig with
+  | nil => intro st i _; simp [argLoop, regArgsFrom]
+  | cons t0 ts ih =>
+    intro st i hd
+    obtain ⟨d1, d2, d3⟩ := argStep_distinct st t0 hd
+    obtain ⟨i1, i2, i3⟩ := ih (argStep st t0).1 (i + 1) d1
+    simp only [argLoop]
+    cases hl : (argStep st t0).2 with
+    | stack o sz =>
+      simp only [regArgsFrom]
+      refine ⟨fun x hx => ?_, i2, ?_⟩
+      · obtain ⟨p, hp, e⟩ := i1 x hx; exact ⟨p, d2 p hp, e⟩
+      · intro j r hj
+        cases j with
+        | zero => simp at hj
+        | succ j =>
+          simp only [List.getElem?_cons_succ] at hj
+          obtain ⟨t, ht⟩ := i3 j r hj
+          exact ⟨t, by rw [show i + (j + 1) = i + 1 + j by omega]; exact ht⟩
+    | reg r0 =>
+      obtain ⟨⟨p0, hp0, e0⟩, hne⟩ := d3 r0 hl
+      simp only [regArgsFrom]
+      refine ⟨?_, ?_, ?_⟩
+      · intro x hx
+        simp only [List.mem_cons] at hx
+        rcases hx with rfl | hx
+        · exact ⟨p0, hp0, e0⟩
+        · obtain ⟨p, hp, e⟩ := i1 x hx; exact ⟨p, d2 p hp, e⟩
+      · rw [List.pairwise_cons]
+        refine ⟨fun y hy => ?_, i2⟩
+        obtain ⟨p, hp, e⟩ := i1 y hy
+        simp only
+        rw [e]; exact fun h => hne p hp h.symm
+      · intro j r hj
+        cases j with
+        | zero => simp at hj; subst hj; exact ⟨t0, by simp⟩
+        | succ j =>
+          simp only [List.getElem?_cons_succ] at hj
+          obtain ⟨t, ht⟩ := i3 j r hj
+          exact ⟨t, by rw [show i + (j + 1) = i + 1 + j by omega]; simp [ht]⟩
+
 end Proofs.X64CC
